@@ -17,9 +17,11 @@ import (
 func TestMain(m *testing.M) { vkit.Main(m) }
 
 var (
-	baseOnce sync.Once
-	baseW    *simstorage.World
-	baseErr  error
+	baseOnce  sync.Once
+	baseW     *simstorage.World
+	baseFreeW *simstorage.World // baseW plus storage settings that admit free allocations, plus assigner wallets
+	assignerW []*sim.Wallet
+	baseErr   error
 )
 
 // base boots the chain and sets up 6 blobbers and 4 validators once per process; every case forks from that block.
@@ -32,6 +34,26 @@ func base(t *testing.T) *simstorage.World {
 		}
 		h := s.NewHistory(s.Genesis)
 		baseW, baseErr = simstorage.SetupWith(h, simstorage.DefaultOptions(6, 4))
+		if baseErr != nil {
+			return
+		}
+		// second base: the shipped free-allocation price range (read max 0) admits no blobber of this world
+		f := baseW.Fork()
+		if _, baseErr = f.Exec(f.UpdateSettings(nil, map[string]string{"free_allocation_settings.read_price_range.max": "1"})); baseErr != nil {
+			return
+		}
+		if _, baseErr = f.Exec(f.CommitSettingsChanges()); baseErr != nil {
+			return
+		}
+		for i := 0; i < 3; i++ {
+			var a *sim.Wallet
+			if a, baseErr = f.NewClient("assigner", i, simstorage.ZCN); baseErr != nil {
+				return
+			}
+			assignerW = append(assignerW, a)
+		}
+		f.SetupBlock = f.H.NextBlock(1, 2)
+		baseFreeW = f
 	})
 	if baseErr != nil {
 		t.Fatalf("VERIF-HARNESS-ERROR storage base: %v", baseErr)
@@ -67,14 +89,49 @@ type machine struct {
 	lastRead *readAttempt
 	// onApplied updates the model for the transaction being executed before the oracle runs
 	onApplied func(o sim.Outcome)
+	// opsList overrides the default operation mix of step()
+	opsList []string
+	// cur describes the operation being executed (what the generator meant), for the oracles
+	cur curOp
+	assigners []*assigner
+	lastRead2 *readAttempt2
+	triples   []tripleRef // (allocation, blobber, reader) triples with a successful redemption
+	lastFree  *freeAttempt
+}
+
+// curOp is the generator's description of the operation in flight.
+type curOp struct {
+	op       string
+	alloc    *alloc               // the allocation the operation names (nil if none)
+	provider *simstorage.Provider // the provider the operation names (nil if none)
+	from     *sim.Wallet
+	wasOpen  bool // alloc was open in the model when the operation was issued
+}
+
+type assigner struct {
+	name       string
+	w          *sim.Wallet
+	indiv      float64
+	total      float64
+	nextNonce  int64
+	used       map[int64]bool // nonces redeemed successfully
+	redeemed   uint64         // tokens granted (model)
+	accepted   int
+	rejected   int
 }
 
 func newMachine(t *rapid.T, prop string) *machine {
 	w := base0.Fork()
+	if freeWorld[prop] {
+		w = baseFreeW.Fork()
+	}
 	return &machine{t: t, w: w, h: w.H, prop: prop, readers: map[string]int64{}, classes: map[string]int{}}
 }
 
 var base0 *simstorage.World
+
+// freeWorld lists the properties whose machines start from the base that admits free allocations.
+var freeWorld = map[string]bool{"C24": true, "C14": true, "C09": true}
 
 func (m *machine) viol(key, format string, a ...interface{}) string {
 	return vkit.Violation(m.prop, key, "%s :: last steps %v", fmt.Sprintf(format, a...), m.h.Render(8))
@@ -91,6 +148,8 @@ type snapshot struct {
 	cpool  map[string]uint64 // challenge pool per allocation (absent = no node)
 	blob   map[string]simstorage.Blobber
 	spool  map[string]simstorage.StakePool // stake pools of blobbers and validators by provider id
+	rpool  map[string]uint64               // read pool balance per client id (absent = no node)
+	scBal  uint64                          // balance of the storage contract's wallet
 }
 
 func (m *machine) providers() []*simstorage.Provider {
@@ -101,7 +160,15 @@ func (m *machine) providers() []*simstorage.Provider {
 
 func (m *machine) snap() *snapshot {
 	v := m.w.View()
-	s := &snapshot{bal: m.h.Snap(), allocs: map[string]simstorage.Allocation{}, cpool: map[string]uint64{}, blob: map[string]simstorage.Blobber{}, spool: map[string]simstorage.StakePool{}}
+	s := &snapshot{bal: m.h.Snap(), allocs: map[string]simstorage.Allocation{}, cpool: map[string]uint64{}, blob: map[string]simstorage.Blobber{}, spool: map[string]simstorage.StakePool{}, rpool: map[string]uint64{}}
+	s.scBal = v.Balance(sim.StorageSC)
+	for _, c := range m.w.S.Clients {
+		if bal, ok, err := v.ReadPool(c.ID); err != nil {
+			m.t.Fatalf("VERIF-HARNESS-ERROR read pool view: %v", err)
+		} else if ok {
+			s.rpool[c.ID] = bal
+		}
+	}
 	for _, a := range m.allocs {
 		if al, ok, err := v.Allocation(a.id); err != nil {
 			m.t.Fatalf("VERIF-HARNESS-ERROR allocation view: %v", err)
@@ -143,8 +210,10 @@ func (m *machine) do(txn *transaction.Transaction) sim.Outcome {
 	if o.Rejected {
 		m.classes["rejected"]++
 		m.onApplied = nil
+		m.cur = curOp{}
 		return o
 	}
+	defer func() { m.cur = curOp{} }()
 	if o.Failed {
 		m.classes["failed/"+txn.FunctionName]++
 	} else {
@@ -211,14 +280,20 @@ func (m *machine) advance() {
 	}
 }
 
+var defaultOps = []string{
+	"newAlloc", "newAlloc", "upload", "upload", "upload", "delete", "challenge", "challenge", "respond", "respond", "respond",
+	"writeLock", "readLock", "readRedeem", "readRedeem", "readUnlock", "extend", "grow", "addBlobber", "replaceBlobber",
+	"cancel", "finalize", "stake", "unstake", "collect", "kill", "shutdown", "blobberSettings", "blockRewards", "advance", "advance",
+}
+
 // step draws and executes one operation.
 func (m *machine) step() {
 	t, w := m.t, m.w
-	op := rapid.SampledFrom([]string{
-		"newAlloc", "newAlloc", "upload", "upload", "upload", "delete", "challenge", "challenge", "respond", "respond", "respond",
-		"writeLock", "readLock", "readRedeem", "readRedeem", "readUnlock", "extend", "grow", "addBlobber", "replaceBlobber",
-		"cancel", "finalize", "stake", "unstake", "collect", "kill", "shutdown", "blobberSettings", "blockRewards", "advance", "advance",
-	}).Draw(t, "op")
+	ops := m.opsList
+	if ops == nil {
+		ops = defaultOps
+	}
+	op := rapid.SampledFrom(ops).Draw(t, "op")
 	switch op {
 	case "advance":
 		m.advance()
@@ -257,6 +332,7 @@ func (m *machine) step() {
 			}
 			size = -rapid.Int64Range(1, have).Draw(t, "deleteBytes")
 		}
+		m.cur = curOp{op: op, alloc: a, provider: b, from: b.Op, wasOpen: a.open}
 		p := simstorage.WriteParams{AllocID: a.id, Blobber: b, Signer: a.owner, Size: size, V2: rapid.IntRange(0, 4).Draw(t, "v2") == 0}
 		if rapid.IntRange(0, 14).Draw(t, "badMarker") == 0 {
 			p.BadSignature = true
@@ -311,6 +387,7 @@ func (m *machine) step() {
 		}
 	case "writeLock":
 		if a := m.pickAlloc(rapid.IntRange(0, 5).Draw(t, "alsoClosed") != 0); a != nil {
+			m.cur = curOp{op: op, alloc: a, wasOpen: a.open}
 			m.do(w.WritePoolLock(m.client("locker"), a.id, currency.Coin(rapid.SampledFrom([]uint64{1, zcn, 20 * zcn}).Draw(t, "amount"))))
 		}
 	case "readLock":
@@ -329,6 +406,7 @@ func (m *machine) step() {
 			if rapid.IntRange(0, 7).Draw(t, "byStranger") == 0 {
 				p.From = m.w.S.Clients[5]
 			}
+			m.cur = curOp{op: op, alloc: a, from: p.From, wasOpen: a.open}
 			m.do(w.UpdateAllocation(p))
 		}
 	case "addBlobber", "replaceBlobber":
@@ -357,6 +435,7 @@ func (m *machine) step() {
 		if op == "replaceBlobber" {
 			p.RemoveBlobber = m.blobberOf(a)
 		}
+		m.cur = curOp{op: op, alloc: a, from: p.From, provider: p.RemoveBlobber, wasOpen: a.open}
 		m.onApplied = func(o sim.Outcome) {
 			if ok(o) && p.RemoveBlobber != nil {
 				delete(a.uploads, p.RemoveBlobber.ID())
@@ -389,6 +468,7 @@ func (m *machine) step() {
 		} else {
 			txn = w.FinalizeAllocation(from, a.id)
 		}
+		m.cur = curOp{op: op, alloc: a, from: from, wasOpen: a.open}
 		m.onApplied = func(o sim.Outcome) {
 			if ok(o) {
 				a.open, a.closedBy = false, op
@@ -398,7 +478,9 @@ func (m *machine) step() {
 	case "stake":
 		ps := m.providers()
 		p := ps[rapid.IntRange(0, len(ps)-1).Draw(t, "provider")]
-		m.do(w.StakeLock(m.client("staker"), p, currency.Coin(rapid.SampledFrom([]uint64{zcn, 10 * zcn, 1, 150 * zcn}).Draw(t, "stake"))))
+		staker := m.client("staker")
+		m.cur = curOp{op: op, provider: p, from: staker}
+		m.do(w.StakeLock(staker, p, currency.Coin(rapid.SampledFrom([]uint64{zcn, 10 * zcn, 1, 150 * zcn}).Draw(t, "stake"))))
 	case "unstake":
 		ps := m.providers()
 		p := ps[rapid.IntRange(0, len(ps)-1).Draw(t, "provider")]
@@ -406,6 +488,7 @@ func (m *machine) step() {
 		if rapid.IntRange(0, 3).Draw(t, "delegateItself") == 0 {
 			from = p.Delegate
 		}
+		m.cur = curOp{op: op, provider: p, from: from}
 		m.do(w.StakeUnlock(from, p))
 	case "collect":
 		ps := m.providers()
@@ -414,6 +497,7 @@ func (m *machine) step() {
 		if rapid.Bool().Draw(t, "byStaker") {
 			from = m.client("staker")
 		}
+		m.cur = curOp{op: op, provider: p, from: from}
 		m.do(w.CollectReward(from, p))
 	case "kill", "shutdown":
 		if rapid.IntRange(0, 2).Draw(t, "really") != 0 {
@@ -436,6 +520,7 @@ func (m *machine) step() {
 		case 2:
 			from = m.w.S.Clients[5]
 		}
+		m.cur = curOp{op: op, provider: p, from: from}
 		switch {
 		case op == "kill" && isBlobber:
 			m.do(w.KillBlobber(from, p))
@@ -454,6 +539,50 @@ func (m *machine) step() {
 		m.do(w.UpdateBlobberSettings(b.Delegate, b, u))
 	case "blockRewards":
 		m.do(w.BlobberBlockRewards())
+	case "unstake2", "collect2":
+		// aim at a delegate pool that has accrued a reward (if there is one)
+		type cand struct {
+			p  *simstorage.Provider
+			id string
+		}
+		var cands []cand
+		v := w.View()
+		for _, p := range m.providers() {
+			if sp, found, _ := v.StakePool(p); found {
+				for _, dp := range sp.Pools {
+					if dp.Reward > 0 && w.Wallet(dp.ID) != nil {
+						cands = append(cands, cand{p, dp.ID})
+					}
+				}
+			}
+		}
+		if len(cands) == 0 {
+			return
+		}
+		c := cands[rapid.IntRange(0, len(cands)-1).Draw(t, "rewardedPool")]
+		from := w.Wallet(c.id)
+		m.cur = curOp{op: op, provider: c.p, from: from}
+		if op == "unstake2" {
+			m.do(w.StakeUnlock(from, c.p))
+		} else {
+			m.do(w.CollectReward(from, c.p))
+		}
+	case "blockRewards2":
+		// move to the next round at which the contract pays block rewards, then trigger them
+		period := int64(30)
+		if conf, found, _ := w.View().Config(); found && conf.BlockRewardTriggerPeriod > 0 {
+			period = conf.BlockRewardTriggerPeriod
+		}
+		if d := period - m.h.Round%period; d != period {
+			m.h.NextBlock(d, 2*d)
+		}
+		m.do(w.BlobberBlockRewards())
+	case "readRedeem2":
+		m.readRedeem2()
+	case "addAssigner":
+		m.addAssigner()
+	case "freeAlloc":
+		m.freeAlloc()
 	}
 }
 
